@@ -176,8 +176,15 @@ func runC43(c *core.Ctx) {
 			}
 		}
 		if g, ok := in.(*ssa.Go); ok {
+			// the goroutine's body: a function literal, or a named function of the repository (`go x.work(a, b)`)
+			var body *ssa.Function
 			if mc, ok := g.Call.Value.(*ssa.MakeClosure); ok {
-				if body, ok := mc.Fn.(*ssa.Function); ok {
+				body, _ = mc.Fn.(*ssa.Function)
+			} else if sc := g.Call.StaticCallee(); sc != nil && sc.Blocks != nil && core.InRepo(sc) {
+				body = sc
+			}
+			if body != nil {
+				{
 					cnt := core.CountEvents(body, func(i2 ssa.Instruction) int {
 						if c2 := core.CallOf(i2); c2 != nil && isThrottlerMethod(c2, "EndProcessing") {
 							return 1
